@@ -214,3 +214,77 @@ Proof.
   - rewrite Hva', Hva, Hcab, Hvb. field. split; assumption.
   - rewrite Hcab', Hcab, Hvb. field. split; assumption.
 Qed.
+
+(* ================= residual-scaled weighted least squares (line_fit_rwls) =================
+   same scale factors s_i: values as above, ssr' = ga^2 ssr, same dof, and -- sigma^2 = ssr/df
+   scaling with ga^2 -- the covariance matrix transforms as for ordinary least squares *)
+Theorem rwls_full_equivariant (l : list pt) al be ga de dof fs fs' :
+  al <> 0 ->
+  g_line_fit_rwls RNum (map px l) (map py l) (map pu l) dof = Ok fs ->
+  g_line_fit_rwls RNum (map (fun p => al * px p + be) l) (map (fun p => ga * py p + de) l) (map pu l) dof = Ok fs' ->
+  let cab := fs_r fs * fs_au fs * fs_bu fs in
+  fs_bx fs' = ga * fs_bx fs / al /\ fs_ax fs' = ga * fs_ax fs + de - ga * fs_bx fs / al * be /\
+  fs_df fs' = fs_df fs /\ fs_n fs' = fs_n fs /\
+  fs_ssr fs' = ga * ga * fs_ssr fs /\
+  fs_bu fs' = Rabs (ga / al) * fs_bu fs /\
+  fs_au fs' * fs_au fs' = ga * ga * (fs_au fs * fs_au fs - 2 * (be / al) * cab + (be / al) * (be / al) * (fs_bu fs * fs_bu fs)) /\
+  fs_r fs' * fs_au fs' * fs_bu fs' = ga * ga / al * (cab - be / al * (fs_bu fs * fs_bu fs)).
+Proof.
+  intros Hal H H'. cbv zeta.
+  apply rwls_sound in H. destruct H as (l1 & d & Ex & Ey & Eu & Hw & Hdr & Hdf & Hd0 & _ & Hsol & Hssr & Hn).
+  apply rwls_sound in H'. destruct H' as (l2 & d' & Ex' & Ey' & Eu' & _ & Hdr' & Hdf' & Hd0' & _ & Hsol' & Hssr' & Hn').
+  set (T := shift_scale al be ga de).
+  assert (E1 : l1 = l) by (symmetry; apply pts_eq; assumption).
+  assert (E2 : l2 = map T l).
+  { symmetry; apply pts_eq; rewrite map_map.
+    - rewrite <- Ex'. apply map_ext. intros p. reflexivity.
+    - rewrite <- Ey'. apply map_ext. intros p. reflexivity.
+    - rewrite <- Eu'. apply map_ext. intros p. reflexivity. }
+  subst l1 l2.
+  assert (Edf : fs_df fs' = fs_df fs).
+  { unfold dof_rule in Hdr, Hdr'. rewrite map_length in Hdr'. destruct dof; [rewrite Hdr, Hdr'; reflexivity| |contradiction].
+    destruct Hdr as [_ Hdr], Hdr' as [_ Hdr']. rewrite Hdr, Hdr'. reflexivity. }
+  assert (Ed : d' = d) by (rewrite Hdf, Hdf' in Edf; injection Edf as Edf; exact Edf).
+  subst d'.
+  assert (HuT : forall p, pu (T p) = pu p) by (intros p; reflexivity).
+  assert (B0 : wS (map T l) = wS l) by (unfold wS; rewrite Sw_map by exact HuT; reflexivity).
+  assert (B1 : wSx (map T l) = al * wSx l + be * wS l).
+  { unfold wSx, wS. rewrite Sw_map by exact HuT. apply Sw_lin2. intros p _. unfold T, shift_scale, px. simpl. ring. }
+  assert (B2 : wSy (map T l) = ga * wSy l + de * wS l).
+  { unfold wSy, wS. rewrite Sw_map by exact HuT. apply Sw_lin2. intros p _. unfold T, shift_scale, py. simpl. ring. }
+  assert (B3 : wSxx (map T l) = al * al * wSxx l + 2 * al * be * wSx l + be * be * wS l).
+  { unfold wSxx, wSx, wS. rewrite Sw_map by exact HuT. apply Sw_lin3. intros p _. unfold T, shift_scale, px. simpl. ring. }
+  assert (B4 : wSxy (map T l) = al * ga * wSxy l + al * de * wSx l + be * ga * wSy l + be * de * wS l).
+  { unfold wSxy, wSx, wSy, wS. rewrite Sw_map by exact HuT.
+    transitivity (al * ga * Sw (fun p => px p * py p) l + (al * de * Sw px l + (be * ga * Sw py l + be * de * Sw (fun _ => 1) l))); [|ring].
+    unfold Sw. rewrite <- !Sm_scal, <- !Sm_plus. apply Sm_ext. intros p _.
+    unfold T, shift_scale, px, py, pu. simpl. unfold Rdiv. ring. }
+  rewrite B0, B1, B2, B3, B4 in Hsol'.
+  destruct Hsol as [H1 H2 Hd Hva Hvb Hcab Hua Hub]. destruct Hsol' as [H1' H2' Hd' Hva' Hvb' Hcab' Hua' Hub'].
+  destruct (ne_equivariant _ _ _ _ _ _ _ al be ga de Hal H1 H2) as [G1 G2].
+  destruct (ne_unique _ _ _ _ _ _ _ _ _ (Rgt_not_eq _ _ Hd') H1' H2' G1 G2) as [Ea Eb].
+  split; [exact Eb|]. split; [exact Ea|]. split; [exact Edf|].
+  split; [rewrite Hn, Hn', map_length; reflexivity|].
+  assert (S2 : fs_ssr fs' = ga * ga * fs_ssr fs).
+  { rewrite Hssr', Hssr. rewrite Sw_map by exact HuT. unfold Sw. rewrite <- Sm_scal. apply Sm_ext. intros p Hp.
+    rewrite Ea, Eb. unfold wres, T, shift_scale, px, py, pu. simpl.
+    pose proof (Hw p Hp) as Hu. unfold pu in Hu. field. split; assumption. }
+  set (D := wS l * wSxx l - wSx l * wSx l) in *.
+  assert (HD' : wS l * (al * al * wSxx l + 2 * al * be * wSx l + be * be * wS l)
+                - (al * wSx l + be * wS l) * (al * wSx l + be * wS l) = al * al * D) by (unfold D; ring).
+  rewrite HD' in Hva', Hvb', Hcab', Hd'. rewrite S2 in Hva', Hvb', Hcab'.
+  assert (HD0 : D <> 0) by lra.
+  split; [exact S2|].
+  assert (Vb : fs_bu fs' * fs_bu fs' = (ga / al) * (ga / al) * (fs_bu fs * fs_bu fs)).
+  { rewrite Hvb', Hvb. field. repeat split; assumption. }
+  split.
+  { assert (Hq : 0 <= Rabs (ga / al) * fs_bu fs) by (apply Rmult_le_pos; [apply Rabs_pos|exact Hub]).
+    assert (Hs : fs_bu fs' * fs_bu fs' = (Rabs (ga / al) * fs_bu fs) * (Rabs (ga / al) * fs_bu fs)).
+    { rewrite Vb. replace (Rabs (ga / al) * fs_bu fs * (Rabs (ga / al) * fs_bu fs))
+        with ((Rabs (ga / al) * Rabs (ga / al)) * (fs_bu fs * fs_bu fs)) by ring.
+      rewrite <- Rabs_mult, Rabs_pos_eq by nra. reflexivity. }
+    apply Rsqr_inj; [exact Hub'|exact Hq|exact Hs]. }
+  split.
+  - rewrite Hva', Hva, Hcab, Hvb. field. repeat split; assumption.
+  - rewrite Hcab', Hcab, Hvb. field. repeat split; assumption.
+Qed.
